@@ -52,7 +52,20 @@ DOCUMENTED_OPS: dict[tuple[str, str], str] = {
 
 # Hand-written domain hints (implicit preconditions every real caller respects): predicate over the SI values of
 # the arguments in signature order; cases outside the domain are discarded and counted, never judged.
+def _distinct_first_two(v: list[Any]) -> bool:
+    return bool(v[0] != v[1])
+
+
 DOMAIN_HINTS: dict[tuple[str, str], Any] = {
+    # filter orders: the two distortions must differ (otherwise the law degenerates to acosh(0)/acosh(...))
+    ("laws.electricity.circuits.filters.band_pass_chebyshev_filter_oder_from_distortion_and_frequencies",
+    "calculate_band_pass_chebyshev_filter_order"): _distinct_first_two,
+    ("laws.electricity.circuits.filters.butterworth_filter_order_from_distortion_and_frequencies",
+    "calculate_butterworth_filter_order"): _distinct_first_two,
+    ("laws.electricity.circuits.filters.high_pass_chebyshev_filter_order_from_distortion_and_frequencies",
+    "calculate_chebyshev_filter_order"): _distinct_first_two,
+    ("laws.electricity.circuits.filters.low_pass_chebyshev_filter_order_from_distortion_and_frequencies",
+    "calculate_low_pass_chebyshev_filter_order"): _distinct_first_two,
     # the function sorts its two radii; the published equation is for inner < outer
     ("laws.electricity.circuits.capacitance_of_spherical_capacitor", "calculate_capacity"): lambda v: v[1] < v[2],
 }
@@ -66,7 +79,7 @@ def recipe_strategy(kmax: int) -> st.SearchStrategy[Any]:
     return st.lists(one, min_size=MAXP, max_size=MAXP)
 
 
-class _Hang(Exception):
+class _Hang(BaseException):
     pass
 
 
@@ -294,6 +307,17 @@ def si_value(q: Any, dimvec: Any | None = None) -> Any:
     return sympy.sympify(q)
 
 
+def exactify(x: Any) -> Any:
+    """Replace every Float by the exact rational it stores, so that the harness's own evaluation of the
+    residual is not done in double precision."""
+    import sympy
+    x = sympy.sympify(x)
+    fl = x.atoms(sympy.Float)
+    if not fl:
+        return x
+    return x.xreplace({f: sympy.Rational(f) for f in fl})
+
+
 def _num(x: Any) -> Any:
     import sympy
     return sympy.N(x, 50)
@@ -319,12 +343,24 @@ def _ill_conditioned(eq: Any, sub: dict[Any, Any], qsub: dict[Any, Any], sc: Any
     import mpmath
     import sympy
     try:
-        expr = (eq.lhs - eq.rhs).xreplace(sub).xreplace(qsub)
-        f = sympy.lambdify((), expr, modules="mpmath")
-        with mpmath.workdps(16):
-            lo = mpmath.mpmathify(f())
+        syms = list(sub.keys())
+        expr = (eq.lhs - eq.rhs).xreplace(qsub)
+        f = sympy.lambdify(syms, expr, modules="mpmath")
+
+        def at(dps: int) -> Any:
+            with mpmath.workdps(dps):
+                vals = []
+                for k in syms:
+                    v = sympy.sympify(sub[k])
+                    if v.is_Rational:
+                        vals.append(mpmath.mpf(int(v.p)) / mpmath.mpf(int(v.q)))
+                    else:
+                        vals.append(mpmath.mpmathify(sympy.N(v, dps + 5)))
+                return mpmath.mpmathify(f(*vals))
+
+        lo = at(16)
+        hi = at(60)
         with mpmath.workdps(60):
-            hi = mpmath.mpmathify(f())
             if not (mpmath.isfinite(lo) and mpmath.isfinite(hi)):
                 return True
             return bool(abs(lo - hi) > mpmath.mpf("1e-9") * mpmath.mpf(str(sympy.N(sc, 30))))
@@ -359,7 +395,7 @@ def _sensitivity(eq: Any, sub: dict[Any, Any], qsub: dict[Any, Any], res0: Any) 
 # judging one (function, recipe)
 
 
-def judge(desc: dict[str, Any], recipe: list[Any], hang_s: int = 60, profile: str = "macro") -> tuple[list[tuple[str, str]], dict[str, Any]]:
+def judge(desc: dict[str, Any], recipe: list[Any], hang_s: int = 40, profile: str = "macro") -> tuple[list[tuple[str, str]], dict[str, Any]]:
     signal.signal(signal.SIGALRM, _alarm)
     signal.alarm(hang_s)
     try:
@@ -406,7 +442,12 @@ def _judge(desc: dict[str, Any], recipe: list[Any], profile: str = "macro") -> t
         info["status"] = "non-scalar-result"
         return [], info
     try:
-        va = si_value(res_a)
+        raw = si_value(res_a)
+        n0 = _num(raw)
+        if n0.is_number and n0.is_finite and n0 != 0 and abs(sympy.log(abs(n0), 10)) > 200:
+            # astronomically small/large results (exp of +-1e15): every comparison is ill-conditioned; discarded, counted
+            return [], {"status": "extreme-result"}
+        va = exactify(raw)
         na = _num(va)
     except Exception:  # pylint: disable=broad-except
         info["status"] = "unreadable-result"
@@ -421,9 +462,13 @@ def _judge(desc: dict[str, Any], recipe: list[Any], profile: str = "macro") -> t
         return [], info
     # (2) metamorphic: other units + keyword call
     same_physical = all(sympy.simplify(x - y) == 0 for x, y in zip(si_a, si_b))
-    if same_physical:
+    if same_physical and info["result_zero"]:
+        info["invariance_skipped"] = "zero-result"  # typically an underflow (2**-9e6); nothing to compare
+    elif same_physical:
         st_b, res_b = _call(desc["fn"], names, args_b, True)
-        if st_b != "ok":
+        if st_b != "ok" and _perturbation_sensitive(desc, names, args_a, na):
+            info["invariance_skipped"] = "ill-conditioned"
+        elif st_b != "ok":
             import re as _re
             cls = f"unit-or-call-style-dependence:{site}"
             if type(res_b).__name__ == "UnitsError" and _re.search(r"\*\*-?\d+\.\d+", str(res_b)):
@@ -438,7 +483,9 @@ def _judge(desc: dict[str, Any], recipe: list[Any], profile: str = "macro") -> t
                 nb = _num(si_value(res_b))
                 scale = abs(na) + abs(nb)
                 extreme = na != 0 and abs(sympy.log(abs(na), 10)) > 100
-                if not extreme and abs(na - nb) > sympy.Float("1e-7") * scale:
+                if not extreme and abs(na - nb) > sympy.Float("1e-7") * scale and _perturbation_sensitive(desc, names, args_a, na):
+                    info["invariance_skipped"] = "ill-conditioned"
+                elif not extreme and abs(na - nb) > sympy.Float("1e-7") * scale:
                     out.append((f"unit-or-call-style-dependence:{site}",
                         f"{site}: SI result {_fmt(na)} for {_show(args_a)} but {_fmt(nb)} for the same physical arguments {_show(args_b)}"))
             except Exception:  # pylint: disable=broad-except
@@ -501,6 +548,51 @@ def _judge(desc: dict[str, Any], recipe: list[Any], profile: str = "macro") -> t
     return out, info
 
 
+def _perturbation_sensitive(desc: dict[str, Any], names: list[str], args: list[Any], na: Any) -> bool:
+    """True if multiplying each quantity argument by (1 + 1e-13) changes the SI result by more than 1e-9
+    (relative) or makes the call fail: the case sits on a domain boundary or amplifies rounding (phases of
+    1e12 rad, catastrophic cancellation), so a difference between two spellings of the same value proves nothing."""
+    import sympy
+    from sympy.physics.units import Quantity as SymQuantity
+    from symplyphysics import Quantity
+    eps = 1 + sympy.Rational(1, 10**13)
+    for i, a in enumerate(args):
+        if not isinstance(a, SymQuantity):
+            continue
+        pert = list(args)
+        pert[i] = Quantity(a.scale_factor * eps, dimension=a.dimension)
+        stt, res = _call(desc["fn"], names, pert, False)
+        if stt != "ok":
+            return True
+        try:
+            n2 = _num(si_value(res))
+            if not n2.is_number or abs(n2 - na) > sympy.Float("1e-9") * (abs(n2) + abs(na)):
+                return True
+        except Exception:  # pylint: disable=broad-except
+            return True
+    # is the function's own double-precision evaluation reliable here?  Same arguments as 15-digit and as
+    # 30-digit floats (SymPy then computes in that precision); a difference means rounding is amplified.
+    outs = []
+    for digits in (15, 30, 0):
+        # 0: every magnitude as the exact rational it stores (SymPy then computes exactly / symbolically)
+        conv = (lambda x, digits=digits: sympy.Float(x, digits)) if digits else (lambda x: exactify(sympy.sympify(x)))
+        fargs = [Quantity(conv(a.scale_factor), dimension=a.dimension) if isinstance(a, SymQuantity) and
+            sympy.sympify(a.scale_factor).is_real else a for a in args]
+        stt, res = _call(desc["fn"], names, fargs, False)
+        if stt != "ok":
+            return True
+        try:
+            outs.append(_num(si_value(res)))
+        except Exception:  # pylint: disable=broad-except
+            return True
+    if not all(o.is_number for o in outs):
+        return True
+    for o in outs[1:]:
+        if abs(outs[0] - o) > sympy.Float("1e-9") * (abs(outs[0]) + abs(o)):
+            return True
+    return False
+
+
 def _residual_msg(site: str, attr: str, args: list[Any], na: Any, res: Any, sc: Any) -> str:
     return (f"{site}({_show(args)}) returned SI value {_fmt(na)}, which does not satisfy the module's equation '{attr}': "
         f"|lhs - rhs| = {_fmt(abs(res))} against a term scale of {_fmt(sc)}")
@@ -524,14 +616,17 @@ def _documented_ok(op: str, desc: dict[str, Any], sub: dict[Any, Any], qsub: dic
     except Exception:  # pylint: disable=broad-except
         return False
     inputs = {k: v for k, v in sub.items() if k != out}
+    real_solutions = 0
     for s in sols:
         v = _num(s.xreplace(inputs).xreplace({q: qsub.get(q, si_value(q)) for q in s.atoms(sympy.physics.units.Quantity)}))
-        if not v.is_number:
+        if not v.is_number or not v.is_finite or (op == "ceiling" and not v.is_real):
             continue
+        real_solutions += 1
         want = abs(v) if op == "abs" else sympy.ceiling(v)
         if abs(_num(va) - want) <= sympy.Float("1e-9") * (abs(want) + 1):
             return True
-    return False
+    # no usable reference solution at this input (degenerate arguments): cannot be judged
+    return real_solutions == 0
 
 
 def _show(args: list[Any]) -> str:
@@ -580,6 +675,8 @@ def _shard(task: dict[str, Any]) -> Recorder:
                 labels = ["status:" + status.split(":")[0], "profile:" + profile]
                 if status == "hang":
                     rec.inconclusive += 1
+                    rec.notes.setdefault("hang_guard_expired", []).append(site)
+                    break  # do not spend another guard period on the same function
                 if status == "ok":
                     returned += 1
                     tiers.add(info.get("tier"))
